@@ -2,6 +2,7 @@ import Driver.OpsApply
 import Driver.OpsCase
 import Driver.OpsVariant
 import Driver.OpsSerde
+import Driver.OpsHistory
 /-
   rmodel: the executable side of the Lean model.  One request per line on stdin, one canonical
   result line on stdout; the same lines go to the Rust harness and the two streams are diffed.
@@ -13,6 +14,7 @@ def handlers : List (List String → Option String) :=
   , OpsCase.dispatch
   , OpsVariant.dispatch
   , OpsSerde.dispatch
+  , OpsHistory.dispatch
   ]
 
 def dispatch (fields : List String) : String :=
